@@ -44,3 +44,49 @@ Proof.
   split; [exact product2_binary64_unclamped_fails | exact product2_binary64_accepts].
 Qed.
 Print Assumptions product_residue_defect_binary64.
+
+(* The two earlier repairs of cancelling denominators (F7: mul, F3: wfuse), exhibited the same way.  The copies
+   [bmul_cancelling] / [bwfuse_cancelling] are the model functions with the pre-repair denominators and nothing else
+   changed (Facts/FloatWitness.v). *)
+Theorem mul_cancellation_defect_binary64 :
+  mx = mkbop (z64 0x3fc0000000000000) (z64 0) (z64 0x3fec000000000000) (z64 0x3feffffffc000000) /\
+  my = mkbop (z64 0x3fc0000000000000) (z64 0) (z64 0x3fec000000000000) (z64 0x3feffffffe000000) /\
+  fails (bmul_cancelling (B:=FldB64) eps64 mx my) = true /\
+  accepted64 (bmul (B:=FldB64) eps64 mx my) (mul (B:=FldB64) (ba mx) (ba my)) = true.
+Proof.
+  split; [reflexivity|]. split; [reflexivity|].
+  split; [exact mul_binary64_cancelling_fails | exact mul_binary64_accepts].
+Qed.
+Print Assumptions mul_cancellation_defect_binary64.
+
+Theorem wfuse_cancellation_defect_binary64 :
+  accepted64 (btry_new (B:=FldB64) eps64 (bb fx) (bd fx) (bu fx) (ba fx)) (ba fx) = true /\
+  accepted64 (btry_new (B:=FldB64) eps64 (bb fy) (bd fy) (bu fy) (ba fy)) (ba fy) = true /\
+  fails (bwfuse_cancelling (B:=FldB64) eps64 fx fy fg) = true /\
+  match bwfuse (B:=FldB64) eps64 fx fy fg with
+  | Some r => fin64 (bb r) && fin64 (bd r) && fin64 (bu r) && fin64 (ba r)
+  | None => false
+  end = true.
+Proof.
+  destruct wfuse_binary64_operands_wf as [H0 H1].
+  split; [exact H0|]. split; [exact H1|].
+  split; [exact wfuse_binary64_cancelling_fails | exact wfuse_binary64_accepts].
+Qed.
+Print Assumptions wfuse_cancellation_defect_binary64.
+
+(* F3, cumulative fusion: the pre-repair base rate quotient cancels for nearly vacuous operands *)
+Theorem cfuse_cancellation_defect_binary64 :
+  accepted64 (btry_new (B:=FldB64) eps64 (bb kx) (bd kx) (bu kx) (ba kx)) (ba kx) = true /\
+  accepted64 (btry_new (B:=FldB64) eps64 (bb ky) (bd ky) (bu ky) (ba ky)) (ba ky) = true /\
+  Num.is_one (B:=FldB64) eps64 (bu kx) || Num.is_one (B:=FldB64) eps64 (bu ky) = false /\
+  fails (bcfuse_cancelling (B:=FldB64) eps64 kx ky) = true /\
+  match bcfuse (B:=FldB64) eps64 kx ky with
+  | Some r => fin64 (bb r) && fin64 (bd r) && fin64 (bu r) && fin64 (ba r)
+  | None => false
+  end = true.
+Proof.
+  destruct cfuse_binary64_operands_wf as (H0 & H1 & H2).
+  split; [exact H0|]. split; [exact H1|]. split; [exact H2|].
+  split; [exact cfuse_binary64_cancelling_fails | exact cfuse_binary64_accepts].
+Qed.
+Print Assumptions cfuse_cancellation_defect_binary64.
